@@ -1,7 +1,8 @@
 import RscelModel.Model.Compile
 /-
-The declarative (big-step) semantics of the expression language: `evalSpec e env` is the value the
-property text assigns to `e` in the environment `env` — no instruction sequences, no stack, no jumps.
+The declarative (big-step) semantics of the expression language: `evalSpec B e env` is the value the
+property text assigns to `e` in the environment `env` (`B`: the built-in functions and type
+constructors) — no instruction sequences, no stack, no jumps, no depth budget.
 Failures are values (`.err k`), as in the VM.
 
   a || b      if `a` is truthy: true, and `b` plays no role; otherwise `a` and `b` combined by `vOr`
@@ -13,19 +14,48 @@ Failures are values (`.err k`), as in the VM.
   a op b      every other binary operator: both operands, then `BinOp.apply op`
   !…!m, -…-m  the operator applied as many times as written (see `negCount` for `-9223372036854775808`)
   literals    themselves;  `(e)`: `e`;  `[e₁, …, eₙ]`: the list of the element values
+  {k₁: v₁, …} the map of the entries in source order (`Map.ofList`: the last entry of a repeated key wins);
+              a Value failure when some key is not a string (a failing key included); a failing *value*
+              is stored as it is
+  f'..{e}..'  every segment through `string(·)` (a literal segment too), then `concatStrs`: the first
+              segment (in source order) that fails, fails the string
   identifiers what `InterpStack::pop` makes of a name when no stored program has it: a type name, then a
               bound parameter, else a Binding failure (`resolveIdent`)
+
+  o.name      (not followed by a call) `fieldOf`: the entry of a map, an Attribute failure when it has
+              none or `o` is not a map; a failing `o` stays the failure it is
+  o[i]        `index o i`
+  f(a₁,…,aₙ)  `f` names, in this order, a built-in function, a macro, a type (constructor call), else a
+              Runtime failure (`fnKind`).  Function / constructor: the arguments left to right; the first
+              failing argument is the result of the call (`applyArgs`), otherwise the function applied
+              to the argument values (receiver `null`).  Macros: see below.
+  o.f(a₁,…)   when `o` is a map with an entry `f`, the entry is called (a type value constructs, anything
+              else is a Runtime failure); otherwise `f` names a built-in function (receiver `o`, failing
+              or not), a macro, else a Runtime failure (`methodKind`)
+  has(a)      `true` when `a` has a value, `false` when it fails with a Binding/Attribute failure, every
+              other failure is the result; one argument exactly (else an Argument failure)
+  coalesce(a₁,…)  the first argument that is neither `null` nor a Binding/Attribute failure (a different
+              failure included); `null` when there is none — later arguments play no role (`coalesceVal`)
+  l.all(x,p)  … `exists`, `exists_one`, `filter`, `map` (two forms), `reduce`: the defining folds with
+              their early exits (`allVal`, `existsVal`, `oneVal`, `filterVal`, `mapVal`, `map3Val`,
+              `reduceVal`), the body evaluated with the loop variable bound in front of the
+              environment; a failing body fails the macro at that element.  `filter`/`map` also range
+              over the keys of a map.  The loop-variable arguments must be identifiers.
 
   match s { case p₁: e₁ … }   the patterns are tried in order against the value of `s`; the arm of the
               first case whose pattern yields `true` is the result (no other arm plays a role); `null` when
               none does.  `_` always matches; a comparison pattern `op e` yields `s op e` (a failing
-              comparison does not match).
+              comparison does not match); a type pattern `T` yields `type(s) == T`.
 
-NOT covered (the placeholder `notCovered` is returned; `Frag` excludes these trees, and the
-compiler-correctness theorems of `C05Compile` are stated for `Frag` only): type patterns of `match`
-(`case int:` — they are compiled to a call of `type()`), map literals, f-strings, and every postfix chain
-(member access `.f`, index `[i]`, calls and macros `f(..)`) — hence also no call log: nothing in the
-fragment can call a bound function.
+NOT defined (the placeholder `notCovered` is returned; `Frag2` excludes these trees): a call whose callee
+is not a name (`(e)(..)`, `e[i](..)`, `f(..)(..)`), a macro whose loop-variable argument is not an
+identifier.  Not modelled at all: functions bound by the caller (hence no call log), identifiers naming
+stored programs.  `Frag2` further excludes trees `evalSpec` does define but the compiled code does not
+follow: an uncalled member access `o.f` where `f` names a function or macro (the VM leaves a bound
+method, no value), and — because of two defects of the folding rule `check_for_const`, see `methodOK`
+and `loopVarOK` below — `has`/`coalesce` in method position and loop variables named like a built-in
+function or macro; type patterns must name a type of the type table.
+`Frag` is the smaller fragment of `Theorems/C05Compile.lean`; `Frag2` the one of `Theorems/C05Compile2.lean`.
 -/
 namespace Rscel
 
@@ -49,13 +79,181 @@ def negCount (ops : List Span) : Ast → Nat
   | .member _ (.int _ i) _ => if i = i64Min then ops.length - 1 else ops.length
   | _ => ops.length
 
-/-- Placeholder for the constructors `evalSpec` does not define (see the header). -/
+/-- Placeholder for the trees `evalSpec` does not define (see the header). -/
 def notCovered : Val := .err .internal
 
 /-- The comparison a `match` pattern `op e` applies to the scrutinee. -/
 def CmpOp.apply : CmpOp → Val → Val → Val
   | .eq => valEq | .neq => valNe
   | .gt => rel .gt | .ge => rel .ge | .lt => rel .lt | .le => rel .le
+
+/-! ### value-level meaning of the postfix operations, calls and macros -/
+
+/-- The entry `name` of a map value. -/
+def fieldEntry (o : Val) (name : Str) : Option Val :=
+  match o with
+  | .map m => Map.get m name
+  | _ => none
+
+/-- `o.name` (not a method call): the entry; an Attribute failure without one; a failing `o` stays what it is. -/
+def fieldOf (o : Val) (name : Str) : Val :=
+  match o with
+  | .err k => .err k
+  | _ => match fieldEntry o name with
+    | some v => v
+    | none => .err .attribute
+
+/-- The entries of a map literal when every key is a string. -/
+def strKeys : List (Val × Val) → Option (List (Str × Val))
+  | [] => some []
+  | (.str k, v) :: rest => (strKeys rest).map ((k, v) :: ·)
+  | _ :: _ => none
+
+/-- `{k₁: v₁, …}` from the (key, value) pairs in source order. -/
+def mkMap (kvs : List (Val × Val)) : Val :=
+  match strKeys kvs with
+  | some es => .map (Map.ofList es)
+  | none => .err .value
+
+/-- The first failing value of a list. -/
+def firstErr : List Val → Option ErrKind
+  | [] => none
+  | .err k :: _ => some k
+  | _ :: vs => firstErr vs
+
+/-- A function applied to evaluated arguments: the first failing argument is the result. -/
+def applyArgs (f : List Val → Val) (vs : List Val) : Val :=
+  match firstErr vs with
+  | some k => .err k
+  | none => f vs
+
+/-- What a name in call position denotes. -/
+inductive CallKind
+  | func (f : Val → List Val → Val) (this : Val)   -- built-in function with its receiver
+  | macro_ (this : Val)
+  | ctor (tn : Str)                                 -- type constructor
+  | none                                            -- nothing callable: a Runtime failure
+
+/-- `name(..)`: a built-in function, then a macro, then a type. -/
+def fnKind (B : Builtins) (env : Env) (name : Str) : CallKind :=
+  match B.func name with
+  | some f => .func f .null
+  | none =>
+    if env.isMacro name then .macro_ .null else
+    match env.getType name with
+    | some (.type tn) => .ctor tn
+    | _ => .none
+
+/-- `o.name(..)`: an entry `name` of a map `o` is what is called (only a type value is callable);
+    otherwise a built-in function or a macro with receiver `o`. -/
+def methodKind (B : Builtins) (env : Env) (o : Val) (name : Str) : CallKind :=
+  match fieldEntry o name with
+  | some (.type tn) => .ctor tn
+  | some _ => .none
+  | none =>
+    match B.func name with
+    | some f => .func f o
+    | none => if env.isMacro name then .macro_ o else .none
+
+/-- A function or constructor applied to values as they are (no failing-argument rule). -/
+def callRaw (B : Builtins) : CallKind → List Val → Val
+  | .func f this, vs => f this vs
+  | .ctor tn, vs => B.ctor tn vs
+  | .macro_ _, _ => notCovered
+  | .none, _ => .err .runtime
+
+/-- A function or constructor applied to evaluated argument expressions. -/
+def callStrict (B : Builtins) : CallKind → List Val → Val
+  | .func f this, vs => applyArgs (f this) vs
+  | .ctor tn, vs => applyArgs (B.ctor tn) vs
+  | .macro_ _, _ => notCovered
+  | .none, _ => .err .runtime
+
+/-- The failures that mean "absent" to `has` and `coalesce`. -/
+def absentKind : ErrKind → Bool
+  | .binding | .attribute => true
+  | _ => false
+
+def hasVal : Val → Val
+  | .err k => if absentKind k then .bool false else .err k
+  | _ => .bool true
+
+/-- `coalesce` over the argument values in source order; the tail behind the chosen one plays no role. -/
+def coalesceVal : List Val → Val
+  | [] => .null
+  | .null :: rest => coalesceVal rest
+  | .err k :: rest => if absentKind k then coalesceVal rest else .err k
+  | v :: _ => v
+
+/-- A call, given what the name denotes (`k`), the values of the argument expressions in source order
+    (`vs`) and — for the macros that work on the argument expressions — their meaning `mac` as a function
+    of the receiver. -/
+def callOf (B : Builtins) (k : CallKind) (name : Str) (vs : List Val) (mac : Val → Val) : Val :=
+  match k with
+  | .macro_ this => if name = "coalesce".toList then coalesceVal vs else mac this
+  | .func f this => applyArgs (f this) vs
+  | .ctor tn => applyArgs (B.ctor tn) vs
+  | .none => .err .runtime
+
+/-- A failing value stays the failure it is; any other value is passed on. -/
+def Val.andThen (v : Val) (f : Val → Val) : Val :=
+  match v with
+  | .err k => .err k
+  | r => f r
+
+/-- `all`: the first element whose predicate fails or is falsy decides. (`g`: the body as a function of the element) -/
+def allVal (g : Val → Val) : List Val → Val
+  | [] => .bool true
+  | v :: vs => (g v).andThen fun r => if truthy r then allVal g vs else .bool false
+
+def existsVal (g : Val → Val) : List Val → Val
+  | [] => .bool false
+  | v :: vs => (g v).andThen fun r => if truthy r then .bool true else existsVal g vs
+
+/-- `exists_one` with `n` hits so far: the second hit decides (false) at once. -/
+def oneVal (g : Val → Val) : List Val → Nat → Val
+  | [], n => .bool (n == 1)
+  | v :: vs, n =>
+    (g v).andThen fun r => if truthy r then (if n ≥ 1 then .bool false else oneVal g vs (n + 1)) else oneVal g vs n
+
+/-- Put `x` in front of a list value (a failure stays). -/
+def consVal (x : Val) : Val → Val
+  | .list out => .list (x :: out)
+  | e => e
+
+def filterVal (g : Val → Val) : List Val → Val
+  | [] => .list []
+  | v :: vs => (g v).andThen fun r => if truthy r then consVal v (filterVal g vs) else filterVal g vs
+
+def mapVal (g : Val → Val) : List Val → Val
+  | [] => .list []
+  | v :: vs => (g v).andThen fun r => consVal r (mapVal g vs)
+
+/-- `map(x, p, e)`: the transform of the elements whose predicate is truthy. -/
+def map3Val (gp ge : Val → Val) : List Val → Val
+  | [] => .list []
+  | v :: vs =>
+    (gp v).andThen fun r =>
+      if truthy r then (ge v).andThen fun r2 => consVal r2 (map3Val gp ge vs)
+      else map3Val gp ge vs
+
+def reduceVal (g : Val → Val → Val) : List Val → Val → Val
+  | [], acc => acc
+  | v :: vs, acc => (g acc v).andThen fun r => reduceVal g vs r
+
+/-- `FMT` on the segment values. -/
+def fmtVal (vs : List Val) : Val :=
+  match concatStrs vs with
+  | .ok s => .str s
+  | .error k => .err k
+
+/-- An argument that is an identifier (the loop variable of a macro). -/
+def identOf : Ast → Option Str
+  | .member _ (.ident _ x) [] => some x
+  | _ => none
+
+section
+variable (B : Builtins)
 
 mutual
 def evalSpec : Ast → Env → Val
@@ -74,9 +272,76 @@ def evalSpec : Ast → Env → Val
   | .bin _ op a b, env => op.apply (evalSpec a env) (evalSpec b env)
   | .notRun _ ops m, env => applyN vNot ops.length (evalSpec m env)
   | .negRun _ ops m, env => applyN neg (negCount ops m) (evalSpec m env)
-  | .member _ p [], env => evalSpecPrim p env
-  | .member _ _ (_ :: _), _ => notCovered
+  | .member _ (.ident _ f) (.call _ args :: rest), env =>       -- `f(args)…`
+    evalSpecOps (callOf B (fnKind B env f) f (evalSpecList args env).reverse
+      (fun this => evalSpecMacro f this args env)) rest env
+  | .member _ p chain, env => evalSpecOps (evalSpecPrim p env) chain env
   | .match_ _ s cases, env => evalSpecCases cases (evalSpec s env) env
+
+/-- The postfix chain applied to the value `v`. -/
+def evalSpecOps : Val → List MOp → Env → Val
+  | v, [], _ => v
+  | v, .access _ _ name :: .call _ args :: rest, env =>         -- `v.name(args)…`
+    evalSpecOps (callOf B (methodKind B env v name) name (evalSpecList args env).reverse
+      (fun this => evalSpecMacro name this args env)) rest env
+  | v, .access _ _ name :: rest, env => evalSpecOps (fieldOf v name) rest env
+  | v, .index _ e :: rest, env => evalSpecOps (index v (evalSpec e env)) rest env
+  | _, .call _ _ :: _, _ => notCovered                          -- the callee is not a name
+
+/-- The macros that work on their argument *expressions* (`args`: last argument first, as the tree stores
+    them); `coalesce` works on the argument values, see `callOf`. -/
+def evalSpecMacro : Str → Val → List Ast → Env → Val
+  | name, this, args, env =>
+    if name = "has".toList then
+      (match args with
+       | [a] => hasVal (evalSpec a env)
+       | _ => .err .argument)
+    else if name = "reduce".toList then
+      (match args with
+       | [seed, step, n, c] =>
+         (match identOf c, identOf n with
+          | some cur, some nxt =>
+            (evalSpec seed env).andThen fun s0 =>        -- a failing seed fails the macro
+              match this with
+              | .list l => reduceVal (fun acc v => evalSpec step ((env.bind nxt v).bind cur acc)) l s0
+              | _ => .err .value
+          | _, _ => notCovered)
+       | _ => .err .argument)
+    else if name = "map".toList then
+      (match args with
+       | [e, xb] =>
+         (match identOf xb with
+          | none => notCovered
+          | some x =>
+            match rangeOf true this with
+            | none => .err .value
+            | some l => mapVal (fun v => evalSpec e (env.bind x v)) l)
+       | [e, p, xb] =>
+         (match identOf xb with
+          | none => notCovered
+          | some x =>
+            match rangeOf true this with
+            | none => .err .value
+            | some l => map3Val (fun v => evalSpec p (env.bind x v)) (fun v => evalSpec e (env.bind x v)) l)
+       | _ => .err .argument)
+    else
+      (match args with
+       | [body, xb] =>
+         (match identOf xb with
+          | none => notCovered
+          | some x =>
+            if name = "filter".toList then
+              match rangeOf true this with
+              | none => .err .value
+              | some l => filterVal (fun v => evalSpec body (env.bind x v)) l
+            else
+              match rangeOf false this with
+              | none => .err .value
+              | some l =>
+                if name = "all".toList then allVal (fun v => evalSpec body (env.bind x v)) l
+                else if name = "exists".toList then existsVal (fun v => evalSpec body (env.bind x v)) l
+                else oneVal (fun v => evalSpec body (env.bind x v)) l 0)
+       | _ => .err .argument)
 
 /-- The cases of a `match` against the scrutinee value `vs`, in order. -/
 def evalSpecCases : List MCase → Val → Env → Val
@@ -90,7 +355,8 @@ def evalSpecCases : List MCase → Val → Env → Val
 def evalSpecPat : Pat → Val → Env → Val
   | .any _, _, _ => .bool true
   | .cmp _ _ op e, vs, env => op.apply vs (evalSpec e env)
-  | .type _ _ _, _, _ => notCovered
+  | .type _ _ name, vs, env =>                                  -- `type(vs) == name`
+    valEq (callRaw B (fnKind B env "type".toList) [vs]) (resolveIdent env name)
 
 def evalSpecPrim : Prim → Env → Val
   | .ident _ n, env => resolveIdent env n
@@ -103,12 +369,25 @@ def evalSpecPrim : Prim → Env → Val
   | .str _ s, _ => .str s
   | .bytes _ b, _ => .bytes b
   | .bool _ b, _ => .bool b
-  | .map _ _, _ => notCovered
-  | .fstr _ _, _ => notCovered
+  | .map _ inits, env => mkMap (evalSpecInits inits env)
+  | .fstr _ segs, env => fmtVal (evalSpecSegs segs env)
 
 def evalSpecList : List Ast → Env → List Val
   | [], _ => []
   | e :: es, env => evalSpec e env :: evalSpecList es env
+
+/-- (key, value) pairs of a map literal in source order. -/
+def evalSpecInits : List MInit → Env → List (Val × Val)
+  | [], _ => []
+  | .mk _ k v :: rest, env => (evalSpec k env, evalSpec v env) :: evalSpecInits rest env
+
+/-- The segments of an f-string, each through `string(·)`; a failing expression fails its segment. -/
+def evalSpecSegs : List FSegAst → Env → List Val
+  | [], _ => []
+  | .lit s :: rest, env => callRaw B (fnKind B env "string".toList) [.str s] :: evalSpecSegs rest env
+  | .expr _ e :: rest, env => callStrict B (fnKind B env "string".toList) [evalSpec e env] :: evalSpecSegs rest env
+end
+
 end
 
 /-- The trees `evalSpec` defines: everything built from literals, identifiers, parentheses, list
@@ -139,5 +418,134 @@ inductive Frag (m : Bool) : Ast → Prop
 abbrev InFragment : Ast → Prop := Frag false
 /-- The fragment with `match` (`_` and comparison patterns). -/
 abbrev InFragmentM : Ast → Prop := Frag true
+
+/-! ### the larger fragment of `Theorems/C05Compile2.lean` -/
+
+/-- Names that can be callable: built-in functions and the default macros. -/
+def callableName (B : Builtins) (name : Str) : Bool :=
+  (B.func name).isSome || defaultMacros.any (·.toList = name)
+
+/-- An argument that may serve as loop variable: an identifier that is not the name of a built-in function
+    or macro.  (A loop variable named like a function is outside the fragment: `check_for_const` takes such a
+    name for closed, so an inner call such as `dyn([size])` in `[1].map(size, dyn([size]))` is folded with
+    `size` unbound — a defect of the folding rule, reproduced by the model.) -/
+def loopVarOK (B : Builtins) (a : Ast) : Bool :=
+  match identOf a with
+  | some x => !callableName B x
+  | none => false
+
+/-- The loop-variable arguments of a comprehension macro are proper loop variables (`args`: last argument
+    first).  Only the arities the macros accept are constrained; every other call is unconstrained. -/
+def macroShape (B : Builtins) (name : Str) (args : List Ast) : Bool :=
+  if name = "reduce".toList then
+    match args with
+    | [_, _, n, c] => loopVarOK B c && loopVarOK B n
+    | _ => true
+  else if name = "map".toList then
+    match args with
+    | [_, xb] => loopVarOK B xb
+    | [_, _, xb] => loopVarOK B xb
+    | _ => true
+  else if name = "all".toList || name = "exists".toList || name = "exists_one".toList
+      || name = "filter".toList then
+    match args with
+    | [_, xb] => loopVarOK B xb
+    | _ => true
+  else true
+
+/-- `has` / `coalesce` in *method* position (`o.has(..)`) are outside the fragment: the compiler does not
+    know these two macros, the name of a method is not among the identifiers `check_for_const` inspects,
+    and so an enclosing closed call is folded with the Runtime failure the compiler gets for them
+    (`dyn([[1].has(1)])` is `[<failure>]` while `[[1].has(1)]` is `[true]` — a defect of the folding rule,
+    reproduced by the model).  In function position (`has(..)`, `coalesce(..)`) they are covered. -/
+def methodOK (B : Builtins) (name : Str) : Bool :=
+  (B.func name).isSome || !(name = "has".toList || name = "coalesce".toList)
+
+/-- The shape of a postfix chain behind a value: a call occurs only directly behind a member access
+    (a method call `o.f(..)`); a member access that is *not* called names neither a function nor a macro
+    (the VM leaves a bound method on the stack otherwise, which is no value). -/
+def opsShape (B : Builtins) : List MOp → Bool
+  | [] => true
+  | .access _ _ name :: .call _ args :: rest => macroShape B name args && methodOK B name && opsShape B rest
+  | .access _ _ name :: rest => !callableName B name && opsShape B rest
+  | .index _ _ :: rest => opsShape B rest
+  | .call _ _ :: _ => false
+
+/-- … and a call directly behind the primary needs an identifier as primary (`f(..)`). -/
+def memberShape (B : Builtins) : Prim → List MOp → Bool
+  | .ident _ f, .call _ args :: rest => macroShape B f args && opsShape B rest
+  | _, chain => opsShape B chain
+
+/-- The trees of the larger fragment: `Frag true` plus type patterns of `match`, map literals, f-strings
+    and postfix chains of the shape `memberShape` (field access, index, calls of built-in functions, type
+    constructors and macros by name). -/
+inductive Frag2 (B : Builtins) : Ast → Prop
+  | notRun (sp : Span) (ops : List Span) (x : Ast) : Frag2 B x → Frag2 B (.notRun sp ops x)
+  | negRun (sp : Span) (ops : List Span) (x : Ast) : Frag2 B x → Frag2 B (.negRun sp ops x)
+  | bin (sp : Span) (op : BinOp) (l r : Ast) : Frag2 B l → Frag2 B r → Frag2 B (.bin sp op l r)
+  | tern (sp : Span) (c t f : Ast) : Frag2 B c → Frag2 B t → Frag2 B f → Frag2 B (.tern sp c t f)
+  | match_ (sp : Span) (s : Ast) (cases : List MCase) : Frag2 B s →
+      (∀ sp' p b, MCase.mk sp' p b ∈ cases → Frag2 B b) →                             -- every arm
+      (∀ sp' sp1 sp2 op e b, MCase.mk sp' (.cmp sp1 sp2 op e) b ∈ cases → Frag2 B e) →  -- every comparison pattern
+      (∀ sp' sp1 t name b, MCase.mk sp' (.type sp1 t name) b ∈ cases → (typeByName name).isSome) →
+        -- a type pattern names a type of the type table (`list`, `object`, `null` do not: as identifiers
+        -- they are variables, unbound unless the caller binds them)
+      Frag2 B (.match_ sp s cases)
+  | member (sp : Span) (p : Prim) (chain : List MOp) :
+      (∀ sp' e, p = .parens sp' e → Frag2 B e) →
+      (∀ sp' es, p = .list sp' es → ∀ e ∈ es, Frag2 B e) →
+      (∀ sp' inits, p = .map sp' inits → ∀ sp'' k v, MInit.mk sp'' k v ∈ inits → Frag2 B k) →
+      (∀ sp' inits, p = .map sp' inits → ∀ sp'' k v, MInit.mk sp'' k v ∈ inits → Frag2 B v) →
+      (∀ sp' segs, p = .fstr sp' segs → ∀ src e, FSegAst.expr src e ∈ segs → Frag2 B e) →
+      (∀ sp' args, MOp.call sp' args ∈ chain → ∀ a ∈ args, Frag2 B a) →      -- every argument
+      (∀ sp' e, MOp.index sp' e ∈ chain → Frag2 B e) →                        -- every index
+      memberShape B p chain = true →
+      Frag2 B (.member sp p chain)
+
+/-! ### nesting depth of block executions
+
+Arguments of calls (macro bodies included) and the expression segments of an f-string are compiled to
+nested blocks, which the VM runs one level deeper in its call-depth budget (`maxDepth`). -/
+
+mutual
+def depth : Ast → Nat
+  | .tern _ c t f => max (depth c) (max (depth t) (depth f))
+  | .match_ _ s cases => max (depth s) (depthCases cases)
+  | .bin _ _ l r => max (depth l) (depth r)
+  | .notRun _ _ m => depth m
+  | .negRun _ _ m => depth m
+  | .member _ p chain => max (depthPrim p) (depthOps chain)
+def depthPrim : Prim → Nat
+  | .parens _ e => depth e
+  | .list _ es => depthList es
+  | .map _ inits => depthInits inits
+  | .fstr _ segs => depthSegs segs
+  | _ => 0
+def depthOps : List MOp → Nat
+  | [] => 0
+  | .access .. :: rest => depthOps rest
+  | .call _ args :: rest => max (depthArgs args) (depthOps rest)
+  | .index _ e :: rest => max (depth e) (depthOps rest)
+def depthList : List Ast → Nat
+  | [] => 0
+  | e :: es => max (depth e) (depthList es)
+/-- every argument is a nested block -/
+def depthArgs : List Ast → Nat
+  | [] => 0
+  | a :: as => max (depth a + 1) (depthArgs as)
+def depthInits : List MInit → Nat
+  | [] => 0
+  | .mk _ k v :: rest => max (depth k) (max (depth v) (depthInits rest))
+def depthCases : List MCase → Nat
+  | [] => 0
+  | .mk _ p b :: rest => max (depthPat p) (max (depth b) (depthCases rest))
+def depthPat : Pat → Nat
+  | .cmp _ _ _ e => depth e
+  | _ => 0
+def depthSegs : List FSegAst → Nat
+  | [] => 0
+  | .lit _ :: rest => depthSegs rest
+  | .expr _ e :: rest => max (depth e + 1) (depthSegs rest)
+end
 
 end Rscel
